@@ -56,6 +56,35 @@ func peerHandler(cmd string) ([]byte, uint32) { return outputFor(cmd), 0 }
 
 // runPeer runs one session. role selects which side the Peer plays.
 func runPeer(role, kex string, su suite, strict bool, inj injection) *peerRun {
+	return runPeerX(role, kex, su, strict, inj, "none", edit{})
+}
+
+// guessModes are the first_kex_packet_follows variants of the Peer:
+// "none" (flag false), "right" (flag true, both sides prefer the same kex and
+// host key algorithm, so the guessed packet is used), "wrong-kex" (flag true,
+// the Peer's first kex algorithm is one the Go side does not offer) and
+// "wrong-hostkey" (flag true, the Peer's first host key algorithm differs);
+// in the wrong cases the Go side has to discard exactly one packet.
+var guessModes = []string{"none", "right", "wrong-kex", "wrong-hostkey"}
+
+func otherKex(kex string) string {
+	if kex == "curve25519-sha256" {
+		return "ecdh-sha2-nistp256"
+	}
+	return "curve25519-sha256"
+}
+
+// peerToGoDir is the MITM direction that carries the Peer's packets.
+func peerToGoDir(role string) int {
+	if role == "peer-client" {
+		return dirC2S
+	}
+	return dirS2C
+}
+
+// runPeerX is runPeer with a first_kex_packet_follows mode for the Peer and an
+// edit the MITM performs (plaintext phase of the edit's direction).
+func runPeerX(role, kex string, su suite, strict bool, inj injection, guess string, ed edit) *peerRun {
 	pr := &peerRun{role: role, strict: strict, tap: newTapRec(), injectedN: -1}
 	pE, mP := newDuplex("peer", "mitm-p")
 	mG, gE := newDuplex("mitm-g", "go")
@@ -63,14 +92,24 @@ func runPeer(role, kex string, su suite, strict bool, inj injection) *peerRun {
 	if su.MAC != "" {
 		pcfg.MACs = []string{su.MAC}
 	}
+	switch guess {
+	case "right":
+		pcfg.Follows = true
+	case "wrong-kex":
+		pcfg.Follows, pcfg.ServerGuess = true, true
+		pcfg.Kex = []string{otherKex(kex), kex}
+	case "wrong-hostkey":
+		pcfg.Follows, pcfg.ServerGuess = true, true
+		pcfg.HostKeyAlgos = []string{"rsa-sha2-512", "ssh-ed25519"}
+	}
 	done := make(chan struct{}, 2)
 	var goConn ssh.Conn
 	if role == "peer-client" {
-		pr.x = newMITM(mP, mG, edit{})
+		pr.x = newMITM(mP, mG, ed)
 	} else {
 		pcfg.Server = true
 		pcfg.HostKey = hostKeyPriv()
-		pr.x = newMITM(mG, mP, edit{})
+		pr.x = newMITM(mG, mP, ed)
 	}
 	p := NewPeer(pE, pcfg)
 	pr.peer = p
@@ -139,7 +178,8 @@ func runPeer(role, kex string, su suite, strict bool, inj injection) *peerRun {
 			}()
 		}()
 	} else {
-		ccfg := &ssh.ClientConfig{Config: goConfig(kex, su, peerGoRekeyThreshold), User: "u", HostKeyCallback: ssh.FixedHostKey(hostSigner().PublicKey())}
+		ccfg := &ssh.ClientConfig{Config: goConfig(kex, su, peerGoRekeyThreshold), User: "u", HostKeyCallback: ssh.FixedHostKey(hostSigner().PublicKey()),
+			HostKeyAlgorithms: []string{"ssh-ed25519"}}
 		go func() {
 			defer func() { done <- struct{}{} }()
 			c, chans, reqs, err := ssh.VerifNewClientConn(gE, "mem", ccfg, pr.tap.tap())
